@@ -48,7 +48,8 @@ def archive_trust(raw, stem):
 def tree_tok(tree_digests):
     if not tree_digests:
         return "-"
-    return ";".join(f"{hexs(p)}={d}" for p, d in sorted(tree_digests.items()))
+    # same order as the driver prints: component-wise path order (Rust's PathBuf order)
+    return ";".join(f"{hexs(p)}={d}" for p, d in sorted(tree_digests.items(), key=lambda kv: kv[0].split("/")))
 
 
 def digests(tree):
@@ -106,8 +107,10 @@ class Hist:
         plan_n = conf_n = None
         for ln in err.split("\n"):
             if ln.startswith("Bidirectional plan:"):
-                parts = ln.split()
-                plan_n, conf_n = int(parts[2]), int(parts[4])
+                plan_n = int(ln.split()[2])
+        for ln in out.split("\n"):
+            if ln.startswith("Bidirectional sync complete:"):
+                conf_n = int(ln.split()[5])     # "... N applied, M conflict(s) preserved."
         return rc, out, err, plan_n, conf_n, ("SAFE no-base mode" in err)
 
 
@@ -237,7 +240,7 @@ def run(pid, tier, seed, rundir, model_run):
                         arch_tok = "none" if trusted is None else tree_tok(trusted)
                         q = f"bi {hexs(HOST)} {tree_tok(da)} {tree_tok(db)} {arch_tok}"
                         arch2_tok = "none" if trusted2 is None else tree_tok(trusted2)
-                        imp = f"{status} {plan_n} {conf_n if status != 'ioerror' or conf_n is None else conf_n} A={tree_tok(da2)} B={tree_tok(db2)} arch={arch2_tok}"
+                        imp = f"{status} {plan_n} {conf_n if conf_n is not None else '-'} A={tree_tok(da2)} B={tree_tok(db2)} arch={arch2_tok}"
                         if run_variant is None:
                             ops_f.write(q + "\n"); impl_lines.append(imp)
                             line = len(impl_lines)
@@ -261,7 +264,8 @@ def run(pid, tier, seed, rundir, model_run):
                         rep = {"history": list(history_txt), "line": line, "pre": {"A": da, "B": db, "arch": trusted, "T": dict(h.T)},
                                "post": {"A": da2, "B": db2, "arch": trusted2}, "rc": rc, "stderr": err[-400:]}
                         T = h.T
-                        if pid in ("C02", "C07") and status != "ioerror":
+                        # C02: every run; C07: only runs that had no trusted archive (that is what C07 is about)
+                        if (pid == "C02" or (pid == "C07" and trusted is None)) and status != "ioerror":
                             for side, pre, other in (("A", da, db), ("B", db, da)):
                                 for p, c in pre.items():
                                     if p.endswith(".copia-tmp"):
@@ -288,7 +292,12 @@ def run(pid, tier, seed, rundir, model_run):
                             if da2 != db2:
                                 res["violations"].append(("not-converged", "after a completed run the two trees differ", rep))
                             elif trusted2 != da2:
-                                key = "archive-keeps-entries-for-absent-paths" if trusted2 and set(trusted2) - set(da2) and all(trusted2.get(k) == v for k, v in da2.items()) else "archive-ne-tree"
+                                if trusted2 and set(trusted2) - set(da2) and all(trusted2.get(k) == v for k, v in da2.items()):
+                                    key = "archive-keeps-entries-for-absent-paths"
+                                elif any(".conflict-" in p for p in list(da) + list(db)):
+                                    key = "archive-ne-tree-after-conflict-copy-clash"
+                                else:
+                                    key = "archive-ne-tree"
                                 res["violations"].append((key, "after a completed run the recorded common state differs from the tree", rep))
                             # idempotence probe
                             rc3, out3, err3, plan3, conf3, safe3 = h.bisync()
